@@ -1,4 +1,5 @@
 import SycVerif.Model.DomView
+import SycVerif.Model.Hydrate
 import SycVerif.Driver.Sexp
 /-! Line-protocol front end for the client-rendering engine (E8, part 2). -/
 namespace SycVerif.Driver.ViewDrv
@@ -92,6 +93,20 @@ def runWritesVis (σ : Store) (inst : InstList) (k : Nat) (m : Names) : List Str
       | _, _ => acc ++ ["bad-op"]
     | _ => acc ++ ["bad-op"]
 
+open SycVerif.Hydrate in
+partial def showCh : List Ch → String
+  | [] => ""
+  | c :: r =>
+    let a := match c with
+      | .text s => "T:" ++ showStr s
+      | .cmt s => "C:" ++ showStr s
+      | .el t as ks =>
+        let adopted := as.head? == some ([1], [])
+        let as := as.filter (·.1 != [1])
+        (if adopted then "E*:" else "E:") ++ showStr t ++ "[" ++ ";".intercalate ((sortAttrs as).map fun (n, v) => n ++ "=" ++ v) ++ "]{" ++ showCh ks ++ "}"
+    let b := showCh r
+    if b.isEmpty then a else a ++ "," ++ b
+
 /-- `hydrate run (L vd…) <store> <writes> <ssr>`: after hydration the document shows what a client
 render shows (the SSR string itself is checked by C08/C12); the model ignores the last field -/
 def handleHydrate (line : String) : String :=
@@ -105,7 +120,12 @@ def handleHydrate (line : String) : String :=
         let σ := (if store == "-" then [] else (store.splitOn ",").filterMap (·.toNat?))
         let (inst, k) := mountList σ (VDList.ofList vs) 0
         let (m, out) := visTrees [] (domList σ inst)
-        " | ".intercalate (runWritesVis σ inst k m (if writes == "-" then [] else writes.splitOn ",") [out])
+        let h := match SycVerif.Hydrate.hydrateView σ inst with
+          | .ok ch => "H=" ++ showCh ch
+          | .error .markerNotFound => "H=panic-marker"
+          | .error .textNotFound => "H=panic-text"
+          | .error .shape => "H=panic-shape"
+        " | ".intercalate (runWritesVis σ inst k m (if writes == "-" then [] else writes.splitOn ",") [h, out])
       | none => "bad-op"
     | _ => "bad-op"
   | _, _ => "bad-op"
